@@ -27,6 +27,17 @@ CHECKS = {
  "C17": sym("TLC emits w - lr*g for every shape and learning rate of the grid (nil config, 0, negative), g being the derivative of the back-propagated graph; the harness calls Update through the pointer and checks the new tensor element-wise, that the pointer target was replaced, that the old tensor object, its values and its gradient are bit-for-bit unchanged, and that a tensor without gradient is rejected with nothing replaced.", "DESIGN.md 3/C17"),
 }
 
+MC_NOTE = ("Trusted: spec/Autograd.tla as the reading of the statement (its local VJPs and the total derivative come from symbolic differentiation of the operation definitions, not from backward rules); the verif hooks for tracked / spent flags and back-propagation events; exhaustive only within the stated bounds (tensors per history, value alphabet); larger graphs are reached by trace validation and symbolic replays, not exhaustively.")
+MC_TECH = "TLA+ state machine model-checked by TLC; every transition dumped with a witness path and replayed on the real code with the full projected state compared"
+CHECKS.update({
+ "C01": dict(level="model_checking", design="DESIGN.md 3/C01", note=MC_NOTE, technique=MC_TECH,
+   text="TLC explores the autograd state machine exhaustively within bounds - every operation DAG, tracked assignment, root, every valid order of backward-edge applications, repeated back-propagations over leaf-sharing graphs - and checks in every state that the machine's gradients equal the definitional total derivative (C01_Total) and that each edge is applied exactly once (C01_Once), over rank-0 tensors and over small tensors with real Jacobians. The machine is bound to the code by replaying every transition into an idle state on the real library and comparing values, flags and gradients of all tensors." + KF),
+ "C08": dict(level="model_checking", design="DESIGN.md 3/C08", note=MC_NOTE, technique=MC_TECH,
+   text="TLC explores all histories (within bounds) of creation, unary/binary/comparison operations, BackPropagate on any tensor and ResetGradContext(true|false) under the statement's provisos, with the tracking rule, frame (only tensors a back-propagation passes through gain a gradient, untracked roots change nothing), retirement and reset semantics as invariants; every transition is replayed on the real library comparing tracked/spent flags, gradient presence and values of all tensors, and re-run untracked to show forward values are bit-identical."),
+ "C10": dict(level="model_checking", design="DESIGN.md 3/C10", note=MC_NOTE, technique=MC_TECH + "; environment action Scribble realised by really overwriting caller slices",
+   text="TLC checks the frame properties of the machine (values never change, gradients only change during a back-propagation, tracking only by Reset, the environment action Scribble changes nothing the library depends on) over the operations that take or hand out caller-owned slices, with Scribble enabled between any two calls; the harness replays every transition REALLY overwriting the dimension lists, index ranges, tensor lists, nested data and Shape() results at the TLC-chosen points, compares the full state with the specification and with the run without overwriting (bit-identical). Every symbolic replay of every other property additionally snapshots all tensors around BackPropagate / Update."),
+})
+
 NOT_YET = {}
 
 def main():
